@@ -14,8 +14,8 @@ LEVEL_TEXT = {
     "C05": "proof: get_protocol/setter/handle_i_version against select(major,minor); agreement on normal and exceptional exits; type gates per version",
     "C06": "proof: exact write-log postconditions (ghost log) of every handler incl. version query and failure prefixes",
     "C07": "proof: flush loop invariant (released gone / only that node / each released entry written once via ghost counter) and wake handler contracts",
-    "C08": "proof: exceptional postcondition of the flush loop and its callers (written ones gone, unwritten stay, no repeat)",
-    "C09": "proof: rely/guarantee at the await inside the flush loop (shared buffer havocked under the rely before the callee post): no entry is removed whose message the flush did not write; park branch proved await-free",
+    "C08": "proof: exceptional postcondition of the flush loop and its callers (written ones gone, unwritten stay, no repeat) + the release's normal postcondition (a release whose writes succeed leaves nothing of that node: 'written at a later wake'); bounded native fault enumeration (the property's own quantifier) stands in when the loop is restructured",
+    "C09": "proof: rely/guarantee at the await inside the flush loop (shared buffer havocked under the rely before the callee post): no entry is removed whose message the flush did not write; park branch proved await-free; the destination stays flagged sleeping for the whole release (precondition proved at every call site, loop invariant), so a racing send can only park; bounded sweep of 30 native schedules",
     "C10": "proof: presentation-request wrapper contract on every decorated handler: one request iff no marker, marker only after a successful write, re-armed by node presentation",
     "C11": "proof: handle_i_id_request contract (range, fresh, registered before write, response shape, failure frames) over an arbitrary registry",
     "C12": "proof: trichotomy contract of Gateway.send over all commands/buffer flag/versions; outgoing handlers proved on their bodies",
@@ -25,7 +25,7 @@ LEVEL_TEXT = {
     "C16": "proof: contracts of __aenter__/__aexit__/start/stop/save and both saver closures over ghost counters (live tasks, completed writes, connection); cancellation as an exceptional outcome of the saver's awaits",
     "C17": "proof: StreamTransport.read/write/connect/disconnect for both concrete transports over ghost byte streams; every exception path ends in a TransportError; chunking independence is the assumed readuntil contract",
     "C18": "proof: topic/line mapping both ways and their composition for all prefixes and payloads, subscriptions, publish log, FIFO queue contract, receive task leaves its loop only cancelled or after enqueueing an error, disconnect does not raise",
-    "C19": "proof: all versions proved against specifications derived from the same leaf specs + structural equality of the derived specs per (command,type) and table monotonicity",
+    "C19": "proof: overrides: all versions proved against specifications derived from the same leaf specs + structural equality of the derived specs per (command,type) and table monotonicity; inherited code: 354 relational units (the same function under two adjacent versions from one symbolic pre-state: overlapping paths must agree on outcome and pre-state-determined heap effects; a candidate difference counts only if it replays natively under both versions)",
 }
 NOTE = ("Trusted: the VC generator pyvc (written for this task), z3/cvc5, and the assumed library contracts listed in each evidence file "
         "(A-TYPES, A-CLOSED, A-TRANSPORT, A-ENUM, A-STR, A-NUM, A-MM, A-AV, A-CLOCK). The bounded native differential run in the same check is a "
